@@ -47,3 +47,93 @@ package twcc
 //@ # as long as fewer than 2^16 lie between them, and consecutive ones differ by exactly one modulo 2^16.
 //@ lemma twcc_numbers_distinct: forall c uint32, i uint32, j uint32 :: i < j && j - i < 65536 ==> uint16(c + i) != uint16(c + j)
 //@ lemma twcc_numbers_consecutive: forall c uint32 :: uint16(c + 1) == uint16(c) + 1
+//@
+//@ # ---- TWCC feedback construction (property C05)
+//@ #
+//@ # status symbols: 0 not received, 1 received with small delta, 2 received with large delta
+//@ pred chunkInv(c *chunk) := len(c.deltas) <= 8191
+//@     && (forall i int :: 0 <= i && i < len(c.deltas) ==> c.deltas[i] <= 2)
+//@     && (!c.hasDifferentTypes ==> forall i int :: 0 <= i && i < len(c.deltas) ==> c.deltas[i] == c.deltas[0])
+//@     && (!c.hasLargeDelta ==> forall i int :: 0 <= i && i < len(c.deltas) ==> c.deltas[i] != 2)
+//@     && (c.hasDifferentTypes ==> len(c.deltas) <= 14)
+//@     && (c.hasDifferentTypes && c.hasLargeDelta ==> len(c.deltas) <= 7)
+//@
+//@ func (*chunk).canAdd
+//@   requires inv: chunkInv(c)
+//@   requires symbol: delta <= 2
+//@   modifies nothing
+//@   ensures decision: result == (len(c.deltas) < 7 || (len(c.deltas) < 14 && !c.hasLargeDelta && delta != 2) || (len(c.deltas) < 8191 && !c.hasDifferentTypes && delta == c.deltas[0]))
+//@
+//@ func (*chunk).add
+//@   requires inv: chunkInv(c)
+//@   requires symbol: delta <= 2
+//@   requires fits: len(c.deltas) < 7 || (len(c.deltas) < 14 && !c.hasLargeDelta && delta != 2) || (len(c.deltas) < 8191 && !c.hasDifferentTypes && delta == c.deltas[0])
+//@   modifies c.deltas, c.hasLargeDelta, c.hasDifferentTypes, c.deltas[*]
+//@   ensures inv: chunkInv(c)
+//@   ensures appended: len(c.deltas) == old(len(c.deltas)) + 1 && c.deltas[old(len(c.deltas))] == delta
+//@   ensures prefix_kept: forall i int :: 0 <= i && i < old(len(c.deltas)) ==> c.deltas[i] == old(c.deltas[i])
+//@
+//@ func (*chunk).encode
+//@   requires inv: chunkInv(c)
+//@   requires nonempty: len(c.deltas) > 0
+//@   modifies c.deltas, c.hasLargeDelta, c.hasDifferentTypes
+//@   ensures inv: chunkInv(c)
+//@   ensures room: len(c.deltas) < 7
+//@   ensures run_length: !old(c.hasDifferentTypes) ==> typeis(result, "*rtcp.RunLengthChunk") && len(c.deltas) == 0
+//@        && as(result, "*rtcp.RunLengthChunk").PacketStatusSymbol == old(c.deltas[0]) && as(result, "*rtcp.RunLengthChunk").RunLength == uint16(old(len(c.deltas)))
+//@   ensures one_bit: old(c.hasDifferentTypes) && old(len(c.deltas)) == 14 ==> typeis(result, "*rtcp.StatusVectorChunk") && len(c.deltas) == 0
+//@        && as(result, "*rtcp.StatusVectorChunk").SymbolSize == 0 && len(as(result, "*rtcp.StatusVectorChunk").SymbolList) == 14
+//@   ensures one_bit_symbols: old(c.hasDifferentTypes) && old(len(c.deltas)) == 14 ==> forall i int :: 0 <= i && i < 14 ==>
+//@        as(result, "*rtcp.StatusVectorChunk").SymbolList[i] == old(c.deltas[i]) && old(c.deltas[i]) <= 1
+//@   ensures two_bit: old(c.hasDifferentTypes) && old(len(c.deltas)) != 14 ==> typeis(result, "*rtcp.StatusVectorChunk")
+//@        && as(result, "*rtcp.StatusVectorChunk").SymbolSize == 1
+//@        && len(as(result, "*rtcp.StatusVectorChunk").SymbolList) == ite(old(len(c.deltas)) < 7, old(len(c.deltas)), 7)
+//@        && len(c.deltas) == old(len(c.deltas)) - len(as(result, "*rtcp.StatusVectorChunk").SymbolList)
+//@   ensures two_bit_symbols: old(c.hasDifferentTypes) && old(len(c.deltas)) != 14 ==> forall i int :: 0 <= i && i < len(as(result, "*rtcp.StatusVectorChunk").SymbolList) ==>
+//@        as(result, "*rtcp.StatusVectorChunk").SymbolList[i] == old(c.deltas[i])
+//@   ensures two_bit_rest: old(c.hasDifferentTypes) && old(len(c.deltas)) != 14 ==> forall j int :: 0 <= j && j < len(c.deltas) ==>
+//@        c.deltas[j] == old(c.deltas[j + ite(len(c.deltas) < 7, len(c.deltas), 7)])
+//@   loop 1 invariant flags: (!c.hasDifferentTypes ==> forall i int :: 0 <= i && i <= rangeindex ==> c.deltas[i] == tmp)
+//@        && (!c.hasLargeDelta ==> forall i int :: 0 <= i && i <= rangeindex ==> c.deltas[i] != 2) && tmp == c.deltas[0]
+//@   loop 1 decreases len(c.deltas) - rangeindex
+//@
+//@ # quantised arrival delta in 250 us ticks, rounded half away from zero (RFC draft-holmer-rmcat-transport-wide-cc-extensions)
+//@ def delta250(d int64) int64 := ite(d >= 0, (d + 125) / 250, (d - 125) / 250)
+//@
+//@ pred fbInv(f *feedback) := chunkInv(&f.lastChunk) && f.nextSequenceNumber == f.baseSequenceNumber + f.sequenceNumberCount
+//@     && 0 <= f.len && f.len <= 2 * len(f.deltas)
+//@ # assumption on histories (not an invariant): timestamps within +-2^61 us, fewer than 2^30 deltas in one feedback
+//@ pred fbBounds(f *feedback) := len(f.deltas) < (1 << 30) && -(1 << 61) < f.lastTimestampUS && f.lastTimestampUS < (1 << 61)
+//@
+//@ func (*feedback).setBase
+//@   requires time_range: 0 <= timeUS && timeUS < (1 << 60)
+//@   modifies f.baseSequenceNumber, f.nextSequenceNumber, f.refTimestamp64MS, f.lastTimestampUS
+//@   ensures base: f.baseSequenceNumber == sequenceNumber && f.nextSequenceNumber == sequenceNumber
+//@   ensures reference: f.refTimestamp64MS == timeUS / 64000 && f.lastTimestampUS == (timeUS / 64000) * 64000
+//@   ensures reference_close: 0 <= timeUS - f.lastTimestampUS && timeUS - f.lastTimestampUS < 64000
+//@
+//@ func (*feedback).addReceived
+//@   requires inv: fbInv(f)
+//@   requires bounds: fbBounds(f)
+//@   requires time_range: -(1 << 61) < timestampUS && timestampUS < (1 << 61)
+//@   modifies f.lastTimestampUS, f.nextSequenceNumber, f.sequenceNumberCount, f.len, f.lastChunk.deltas, f.lastChunk.hasLargeDelta, f.lastChunk.hasDifferentTypes,
+//@            f.chunks, f.deltas, mem rtcp.PacketStatusChunk, mem rtcp.RecvDelta, mem uint16, all rtcp.RunLengthChunk.*, all rtcp.StatusVectorChunk.*
+//@   ensures decision: result == (delta250(timestampUS - old(f.lastTimestampUS)) >= -32768 && delta250(timestampUS - old(f.lastTimestampUS)) <= 32767)
+//@   ensures rejected_changes_nothing: !result ==> f.lastTimestampUS == old(f.lastTimestampUS) && f.nextSequenceNumber == old(f.nextSequenceNumber)
+//@        && f.sequenceNumberCount == old(f.sequenceNumberCount) && f.len == old(f.len) && f.deltas == old(f.deltas) && f.chunks == old(f.chunks)
+//@        && f.lastChunk.deltas == old(f.lastChunk.deltas) && f.lastChunk.hasLargeDelta == old(f.lastChunk.hasLargeDelta) && f.lastChunk.hasDifferentTypes == old(f.lastChunk.hasDifferentTypes)
+//@   ensures inv: result ==> fbInv(f)
+//@   ensures time_advances: result ==> f.lastTimestampUS == old(f.lastTimestampUS) + delta250(timestampUS - old(f.lastTimestampUS)) * 250
+//@   ensures within_125us: result ==> f.lastTimestampUS - timestampUS <= 125 && timestampUS - f.lastTimestampUS <= 125
+//@   ensures cursor: result ==> f.nextSequenceNumber == sequenceNumber + 1
+//@   ensures one_status_per_number: result ==> f.sequenceNumberCount == old(f.sequenceNumberCount) + (sequenceNumber - old(f.nextSequenceNumber)) + 1
+//@   ensures one_delta_per_received: result ==> len(f.deltas) == old(len(f.deltas)) + 1
+//@        && f.deltas[old(len(f.deltas))].Delta == delta250(timestampUS - old(f.lastTimestampUS)) * 250
+//@        && f.deltas[old(len(f.deltas))].Type == ite(delta250(timestampUS - old(f.lastTimestampUS)) >= 0 && delta250(timestampUS - old(f.lastTimestampUS)) <= 255, uint16(1), uint16(2))
+//@   ensures earlier_deltas_kept: result ==> forall i int :: 0 <= i && i < old(len(f.deltas)) ==> f.deltas[i].Delta == old(f.deltas[i].Delta) && f.deltas[i].Type == old(f.deltas[i].Type)
+//@   ensures wire_len: result ==> f.len == old(f.len) + ite(delta250(timestampUS - old(f.lastTimestampUS)) >= 0 && delta250(timestampUS - old(f.lastTimestampUS)) <= 255, int(1), int(2))
+//@   loop 1 opt noautoframe
+//@   loop 1 invariant chunk: chunkInv(&f.lastChunk)
+//@   loop 1 invariant count: f.sequenceNumberCount == old(f.sequenceNumberCount) + (f.nextSequenceNumber - old(f.nextSequenceNumber))
+//@   loop 1 invariant untouched: f.lastTimestampUS == old(f.lastTimestampUS) && f.len == old(f.len) && f.deltas == old(f.deltas) && f.baseSequenceNumber == old(f.baseSequenceNumber)
+//@   loop 1 decreases sequenceNumber - f.nextSequenceNumber
